@@ -273,7 +273,7 @@ def run(ctx, rep, tier):
     rep.check(follow == 2 and "if use_real:" in dsrc and "yield from aux(t.target)" in dsrc, "C05.d", "DFA.dfs", "override targets followed; the real target skipped only when an action always leaves",
               "dfs no longer follows override targets / real targets as before")
     ri = ast.unparse(model.func("DfaCompileCtx._optimize_remove_inaccessible"))
-    rep.check(model.has("DfaCompileCtx._optimize_remove_inaccessible", "accessible = set(self.dfa.dfs())") and model.has("DfaCompileCtx._optimize_remove_inaccessible", "if i not in accessible"), "C05.d", "DfaCompileCtx._optimize_remove_inaccessible", "removes exactly the states dfs() does not reach", "removal criterion changed")
+    rep.check((model.has("DfaCompileCtx._optimize_remove_inaccessible", "start_action_targets = [target for action in self.start_actions for subaction in action.all_subactions() for target in subaction.get_target_override_targets()]\naccessible = set(self.dfa.dfs(also_from=start_action_targets))") and model.has("DFA.dfs", "yield from aux(self.starting_state)\nfor extra_root in also_from:\n    yield from aux(extra_root)")) and model.has("DfaCompileCtx._optimize_remove_inaccessible", "if i not in accessible"), "C05.d", "DfaCompileCtx._optimize_remove_inaccessible", "removes exactly the states dfs() does not reach", "removal criterion changed")
 
     # ------------------------------------------------------------------ C05.e who reads optimisation flags
     rep.rule("C05.e", "each optimisation flag is read only by its own pass / template")
